@@ -135,10 +135,28 @@ class Parser(object):
                 line, pos
             )
             fieldnames.add(name)
+            if member.is_array:
+                self._parser_check(
+                    member.kind != model.Kind.UNLIMITED,
+                    "array '{}' of unlimited (greedy) type".format(name),
+                    line, pos
+                )
+                self._parser_check(
+                    not (member.size and member.kind == model.Kind.DYNAMIC),
+                    "fixed or limited array '{}' of dynamic type".format(name),
+                    line, pos
+                )
+            if member.optional:
+                self._parser_check(
+                    member.kind == model.Kind.FIXED,
+                    "optional field '{}' of dynamic or unlimited type".format(name),
+                    line, pos
+                )
             if member.bound:
                 bound, _, __ = next(six.ifilter(lambda m: m[0].name == member.bound, members[:i]), (None, None, None))
                 if bound:
-                    self._parser_check(self._is_type_sizer_compatible(bound.type_name),
+                    self._parser_check(self._is_type_sizer_compatible(bound.type_name) and
+                                       not bound.optional and not bound.is_array,
                                        "Sizer of '{}' has to be of (unsigned) integer type".format(name),
                                        line, pos)
                 else:
